@@ -10,7 +10,7 @@ mkdir -p $OUT
 DEMO=$(ls _seed/demo*.py | head -1)
 cp $PATCH $OUT/patch.diff; cp $DEMO $OUT/; cp _seed/meta.json $OUT/meta.agent.json
 cp -r _seed /tmp/seed/$ID.seedcopy
-git stash -u -q 2>/dev/null; git checkout -q -- . ; git clean -fdq
+git checkout -q -- . ; git clean -fdq   # (no git stash: the stash is shared between worktrees)
 [ -n "$BASE" ] && git checkout -q --detach $BASE
 git rev-parse HEAD > $OUT/base_commit.txt
 mkdir -p _seed; cp $OUT/$(basename $DEMO) _seed/
